@@ -6,6 +6,9 @@ every generated file of the corpus, not by a theorem; see DESIGN.md section 7)."
     ('C01_response_shape', 'run_shape', 'a readable configuration yields exactly one response: file <go_package>/<base>_terraform.go, package = target_package_name else the proto\'s Go package, roots = the selected types that build'),
     ('C01_failure', 'run_fails', 'no response at all when the configuration cannot be read or names no type'),
     ('C01_roots_selected', 'C12_selected', 'the emitted roots are exactly the messages of the request named in types whose build succeeds'),
+    ('C01_package_clause_shape', 'replace_package_name_shape', 'target_package_name: the text is returned unchanged or with exactly one line "package x" rewritten; everything before and after that line is kept'),
+    ('C01_package_clause_first', 'replace_package_name_first', 'it is the first such line that is rewritten (string literals and comments further down that mention the word package are not)'),
+    ('C01_package_clause_absent', 'replace_package_name_absent', 'a text without a package line is returned as it is'),
 ])
 
 T['C02'] = ("""C02 Each field maps to one attribute, named and typed as documented, everywhere.""", [
@@ -15,6 +18,10 @@ T['C02'] = ("""C02 Each field maps to one attribute, named and typed as document
     ('C02_from_field_local', 'from_field_untouched', 'CopyFrom: one field writes only its own Go field (oneof holder / embedded pointer)'),
     ('C02_schema_type_partial', 'schema_ty_msg_ty', 'the schema\'s attribute types are the documented table applied field by field (class tf_ok without injected fields)'),
     ('C02_value_type_partial', 'copy_to_conforms_partial', 'what CopyTo writes has exactly the type the schema gives the attribute, at every depth (class tf_ok)'),
+    ('C02_name_rule', 'build_view_single', 'front end: a declared field that is not an expanded embed yields exactly one attribute; its name is the override, else the JSON tag name (when neither empty nor "-"), else snake_case of the proto name; flags, validators, plan modifiers and the one-line description follow the configuration'),
+    ('C02_declared_field_present', 'declared_field_in_message', 'every declared, not excluded, not embedded field of a message that builds has its attribute in the message'),
+    ('C02_embedded_promoted', 'build_view_embedded', 'an embedded message contributes the attributes of its fields (same names and paths), not an attribute of its own'),
+    ('C02_json_name', 'json_name_spec', 'the JSON tag name is the text before the first comma; "-" and absence mean none'),
 ])
 
 T['C03'] = ("""C03 CopyTo into an empty schema-typed object is total and schema-conformant (proved for the class tf_ok:
@@ -25,12 +32,15 @@ every kind except custom types and nullable embedded messages, oneofs and nestin
     ('C03_no_unknown', 'copy_to_clean', 'for EVERY message and value: if the target holds nothing unknown, neither does the result (any depth)'),
 ])
 
-T['C04'] = ("""C04 Object -> Terraform -> object round trip is lossless (partial: proved per field value; the message level
-statement is exercised by the correspondence check and the oracle, see DESIGN.md).""", [
+T['C04'] = ("""C04 Object -> Terraform -> object round trip is lossless (proved for whole messages of the class rt_ok: every
+kind except custom types and fields promoted from nullable embedded messages; those are decided by the oracle).""", [
     ('C04_scalar_round_trip', 'scalar_round_trip', 'every scalar value of every Go field type survives cast to the attribute payload and back, up to the normal form'),
     ('C04_field_round_trip_partial', 'prim_field_round_trip', 'one scalar field: CopyTo on the empty target then CopyFrom gives the value back (zero <-> null included)'),
     ('C04_ptr_field_round_trip_partial', 'prim_ptr_round_trip', 'pointer-backed scalar field: nil <-> null, contents preserved'),
     ('C04_zero_is_null', 'scalar_zero_null', 'the attribute is null exactly when the field holds its zero value, so reading null back loses nothing'),
+    ('C04_payload_round_trip', 'payload_round_trip', 'conversely every in-range attribute payload decodes to a Go value that encodes to the same payload'),
+    ('C04_message_round_trip_partial', 'copy_round_trip_partial', 'the whole message: CopyTo into the empty schema-typed object succeeds without diagnostics, CopyFrom of the result into a zero struct succeeds without diagnostics, and gives the original back up to the normal form (nil = empty, -0 = 0, zero-payload oneof = nil holder), at every depth, for every message of the class rt_ok (all kinds except custom types and nullable embedded messages; nested messages, lists and maps of them, oneofs) and every typed value'),
+    ('C04_message_round_trip_nofloat32', 'copy_round_trip_nofloat32', 'the same without float32 fields, free of the classical axioms Flocq brings in'),
 ])
 
 T['C05'] = ("""C05 Null and unknown Terraform values reset the target to zero or nil.""", [
@@ -53,6 +63,10 @@ T['C07'] = ("""C07 Oneof groups stay exclusive in both directions.""", [
     ('C07_from_none', 'from_fields_oneof_none', 'all branch attributes null / unknown / missing: the oneof is nil whatever the target held'),
     ('C07_from_one', 'from_fields_oneof_some', 'the last known scalar branch wins: the holder is that branch with the decoded value'),
     ('C07_to_conforms_partial', 'copy_to_conforms_partial', 'CopyTo renders every branch attribute with its schema type (class tf_ok, which includes oneofs)'),
+    ('C07_to_inactive', 'to_field_oneof_inactive', 'CopyTo: a scalar branch that is not the active one (or whose oneof is nil) is rendered null'),
+    ('C07_to_active', 'to_field_oneof_active', 'CopyTo: the active scalar branch is rendered with its value'),
+    ('C07_to_msg_inactive', 'to_field_oneof_msg_inactive', 'CopyTo: a message branch that is not active (or holds nil) is rendered as a null object'),
+    ('C07_to_msg_active', 'to_field_oneof_msg_active', 'CopyTo: the active message branch is rendered as a non-null object'),
 ])
 
 T['C08'] = ("""C08 Apply echo (partial: the per-attribute facts the echo rests on; the whole-plan statement is exercised by
@@ -60,6 +74,9 @@ the oracle on every run).""", [
     ('C08_no_unknown', 'copy_to_clean', 'copying back into the plan leaves nothing unknown where the plan object is written'),
     ('C08_scalar_fixpoint', 'to_prim_value_idem', 'a scalar attribute written from a value is a fixpoint of writing that value again'),
     ('C08_reset_roundtrip', 'from_prim_value_null', 'a null or unknown scalar decodes to the zero value'),
+    ('C08_echo_scalar', 'echo_prim', 'apply echo of one scalar attribute: reading a planned known value and writing it back into the plan reproduces the attribute (null stays null)'),
+    ('C08_echo_pointer', 'echo_prim_ptr', 'the same for pointer-backed scalars'),
+    ('C08_echo_unknown', 'echo_prim_unknown', 'an unknown planned scalar is read as zero and written back as a known null: nothing stays unknown'),
 ])
 
 T['C09'] = ("""C09 Refresh: in-place CopyTo makes collections and known values follow the source.""", [
@@ -77,6 +94,10 @@ T['C10'] = ("""C10 Schema flags and metadata follow the configuration.""", [
     ('C10_injected', 'inj_attr_as_configured', 'an injected field appears with its configured type and flags'),
     ('C10_injected_schema_only', 'copy_to_untouched', 'CopyTo never touches an attribute that is not a field\'s (injected attributes)'),
     ('C10_placeholder_null', 'to_prim_value_placeholder', 'the placeholder attribute of a message without fields is always null'),
+    ('C10_description_one_line', 'field_comment_one_line', 'a description is one line: no newline, trimmed, and a fixpoint of the flattening'),
+    ('C10_front_end_flags', 'build_view_single', 'the front end sets the flags, validators, plan modifiers (UseStateForUnknown by default for computed fields when configured) and description from the configuration'),
+    ('C10_placeholder_schema', 'build_message_placeholder', 'a message without fields gets exactly the placeholder field'),
+    ('C10_placeholder_iff', 'build_message_empty_iff', 'and only such a message'),
 ])
 
 T['C11'] = ("""C11 Field-addressed options hit exactly the addressed fields; exclusion is surgical.""", [
@@ -84,6 +105,9 @@ T['C11'] = ("""C11 Field-addressed options hit exactly the addressed fields; exc
     ('C11_to_untouched', 'to_fields_local', 'hence CopyTo emits nothing for it'),
     ('C11_from_untouched', 'from_fields_untouched', 'and CopyFrom never writes it'),
     ('C11_options_by_lookup', 'obs_of_perm', 'options reach the front end only through lookups by key'),
+    ('C11_flag_iff', 'flag_iff', 'a boolean option holds for a field exactly when its message-qualified name or its path is listed'),
+    ('C11_path_first', 'by_keys_path_first', 'valued options: the entry under the path wins'),
+    ('C11_then_type_name', 'by_keys_type_name', 'otherwise the entry under the message-qualified name, if any'),
 ])
 
 T['C12'] = ("""C12 Only selected types are emitted, independent of the rest of the request.""", [
@@ -96,6 +120,15 @@ T['C13'] = ("""C13 Separate-package generation behaves like same-package generat
 by go build of the two-package layout).""", [
     ('C13_sem_equal', 'C13_sem_equal', 'the intermediate representation, hence schema and both converters, does not depend on default_package_name / target_package_name / import_path_overrides'),
     ('C13_obs_equal', 'obs_of_with_pkgs', 'the package options are not among the questions the front end asks the configuration'),
+    ('C13_same_package_unqualified', 'prepend_same_package', 'type strings: without default_package_name every Go type string is left as gogo gives it'),
+    ('C13_builtin_unqualified', 'prepend_builtin', 'with it, builtin types (under any pointer / slice / map modifiers) are never qualified'),
+    ('C13_qualified', 'prepend_qualifies', 'every other unqualified type name gets the alias of the (possibly overridden) import path, modifiers kept in front'),
+    ('C13_qualified_once', 'prepend_idempotent', 'an already qualified type string is not qualified again'),
+    ('C13_already_qualified', 'prepend_already_qualified', 'nor is a type that came qualified from the descriptor (cast types of other packages)'),
+    ('C13_alias_identifier', 'clean_package_name_ident', 'the alias is a Go identifier'),
+    ('C13_alias_not_keyword', 'clean_package_name_not_keyword', 'and never a Go keyword'),
+    ('C13_with_type', 'with_type_qualifies', 'references to support packages (types, diag, attr, ...) are qualified the same way'),
+    ('C13_no_panic', 'no_panic_prepend', 'qualification never fails at run time unless the package path contains an opening bracket'),
 ])
 
 T['C14'] = ("""C14 Output is a deterministic function of descriptor and configuration (partial: Go's per-run map iteration
@@ -165,4 +198,12 @@ T['C20'] = ("""C20 On an empty target, absence is rendered as null and presence 
     ('C20_pointer', 'to_prim_value_absent_ptr', 'a pointer-backed scalar attribute is null exactly when the pointer is nil'),
     ('C20_placeholder', 'to_prim_value_placeholder', 'the placeholder attribute is always null'),
     ('C20_zero_iff', 'scalar_zero_null', 'zero literal test = the field holds its zero value'),
+    ('C20_list_absent', 'to_field_list_absent_empty', 'a nil or empty list field is rendered as a null list'),
+    ('C20_list_present', 'to_field_list_absent_nonempty', 'a non-empty list field as a non-null list'),
+    ('C20_map_absent', 'to_field_map_absent_empty', 'a nil or empty map field as a null map'),
+    ('C20_map_present', 'to_field_map_absent_nonempty', 'a non-empty map as a non-null map'),
+    ('C20_object_nil', 'to_field_obj_absent_nil_lookup', 'a nil message pointer as a null object, without diagnostics'),
+    ('C20_object_present', 'to_field_obj_absent_some', 'a set message pointer as a non-null object'),
+    ('C20_object_value', 'to_field_obj_absent_value', 'a message held by value is always a non-null object'),
+    ('C20_oneof_inactive', 'to_field_oneof_inactive', 'an inactive oneof branch is null'),
 ])
